@@ -308,6 +308,20 @@ func EvalBands(p *load.Program) (*Bands, error) {
 	if sw == nil {
 		return evalBandsGeneric(p, ev, gc)
 	}
+	// the switch reader recognises `case …: return newX(args)`; any other way of writing the cases (a second result, an
+	// options struct built first, an adapter) is handled by evaluating GetConfig itself
+	b, err := evalBandsSwitch(p, ev, gc, sw)
+	if err != nil {
+		if g, gerr := evalBandsGeneric(p, NewEvaluator(pk), gc); gerr == nil {
+			return g, nil
+		}
+		return nil, err
+	}
+	return b, nil
+}
+
+func evalBandsSwitch(p *load.Program, ev *Evaluator, gc *ast.FuncDecl, sw *ast.SwitchStmt) (*Bands, error) {
+	pk := ev.Pkg
 	params := gc.Type.Params.List
 	if len(params) != 3 {
 		return nil, fmt.Errorf("band.GetConfig: expected 3 parameters")
